@@ -1111,6 +1111,16 @@ def main2():
         report["kernels"][sp["fn"] + "(flow skeleton)"] = dict(info, file=sp["file"])
     except Unsupported as e:
         report["errors"].append(f"agent/agent.c:agent_recv_message_unlocked: {e}")
+    try:
+        import extract_flow
+        sp = extract_flow.SPEC_SEND
+        fpath = os.path.join(REPO, sp["file"])
+        d = ast_of(fpath, sp["fn"])
+        txt, info = extract_flow.translate_send(sp, d, open(fpath, "rb").read(), consts, Unsupported, REPO)
+        open(os.path.join(GEN, "SendMessages.lean"), "w").write(txt)
+        report["kernels"][sp["fn"] + "(flow skeleton)"] = dict(info, file=sp["file"])
+    except Unsupported as e:
+        report["errors"].append(f"agent/agent.c:nice_agent_send_messages_nonblocking_internal: {e}")
     out.append("end Nice.Gen\n")
     open(os.path.join(GEN, "Kernels.lean"), "w").write("\n".join(out))
     with open(os.path.join(GEN, "Tables.lean"), "w") as f:
